@@ -184,6 +184,19 @@ def eval_layout(layout, st, case, allvals, seq=True, prior=None, prebuilt=None):
     return _check_map(m, vars_, layout, st, case, allvals, seq, prior)
 
 
+def _set_frame(m, frame, k):
+    """The application puts frame content into the map: by assigning a new buffer, or by editing the buffer in place
+    (slice assignment, byte by byte) - the style rotates."""
+    style = int(k) % 3 if len(m.data) == len(frame) else 0
+    if style == 0:
+        m.data = bytearray(frame)
+    elif style == 1:
+        m.data[:] = frame
+    else:
+        for i_, b_ in enumerate(frame):
+            m.data[i_] = b_
+
+
 def _check_map(m, vars_, layout, st, case, allvals, seq, prior):
     off = 0
     offs = []
@@ -216,7 +229,7 @@ def _check_map(m, vars_, layout, st, case, allvals, seq, prior):
             # ---- read
             st.evaluations += 1
             want_bits = (f0 >> o) & ((1 << length) - 1)
-            m.data = bytearray(frame0)
+            _set_frame(m, frame0, fi + init)
             try:
                 got = bytes(var.data)
                 want = object_bytes(name, length, want_bits)
@@ -237,7 +250,7 @@ def _check_map(m, vars_, layout, st, case, allvals, seq, prior):
             # ---- write
             for v in field_values(name, length, allvals):
                 st.evaluations += 1
-                m.data = bytearray(frame0)
+                _set_frame(m, frame0, fi + init + v)
                 bits = to_bits(name, length, v)
                 try:
                     if sg is None:
@@ -274,7 +287,7 @@ def _check_map(m, vars_, layout, st, case, allvals, seq, prior):
             vi = field_values(ni, li, False)[-1]
             vj = field_values(nj, lj, False)[0]
             st.evaluations += 1
-            m.data = bytearray(bytes([0xA5]) * nbytes)
+            _set_frame(m, bytes([0xA5]) * nbytes, i + j)
             f = int.from_bytes(m.data, "little")
             try:
                 for fi, v in ((i, vi), (j, vj)):
